@@ -87,17 +87,24 @@ def run(ctx):
         # ---- design level (+ exports)
         f_mc1 = pool.submit(ctx.mc, "HistOps", "HistOps_%s.cfg" % tag, coverage=True,
                             must_cover=("GetScale", "Scale", "SetNevents", "ToGraphScale", "Add", "AddTol"))
-        f_mc2 = pool.submit(ctx.mc, "Graph", "Graph_%s.cfg" % tag, coverage=True, must_cover=("GetScale", "Scale"))
+        # (the export configurations carry the properties too: in the quick tier they are the model checking of the
+        #  graph machine and of the scale sequences; the thorough tier adds the larger configurations)
+        f_mc2 = pool.submit(ctx.mc, "Graph", "Graph_thorough.cfg", coverage=True,
+                            must_cover=("GetScale", "Scale")) if ctx.thorough else None
         f_conv = pool.submit(hl.mc_export, ctx, "Convert", "Convert_%s.cfg" % tag,
                              must_cover=("ToGraph", "IterBins", "IterBinsWithEdges", "IterCells", "Csv", "Csv3d"), min_records=1000)
         f_h1 = pool.submit(ctx.export, "HistOps", "HistOps_export.cfg", min_records=3000)
         f_h2 = pool.submit(hl.export_generate, ctx, "HistOps", "HistOps_hist_export.cfg",
                            num=5000 if ctx.thorough else 500, depth=8, min_records=300)
         # every order of scale() / scale(recompute) / scale(s) / set_nevents / c = a.add(b) (go on with c), length 4 (5)
-        f_mc3 = pool.submit(ctx.mc, "HistOps", "HistOps_seq.cfg", coverage=True, must_cover=("GetScale", "Scale", "SetNevents", "ToGraphScale", "Add"))
-        f_h3 = pool.submit(ctx.export, "HistOps", "HistOps_seq_export.cfg", min_records=3000)
-        f_g3 = pool.submit(ctx.export, "Graph", "Graph_seq_export.cfg", min_records=1000)
-        f_g1 = pool.submit(ctx.export, "Graph", "Graph_export.cfg", min_records=3000)
+        seq_acts = ("GetScale", "Scale", "SetNevents", "ToGraphScale", "Add")
+        f_mc3 = pool.submit(ctx.mc, "HistOps", "HistOps_seq.cfg", coverage=True,
+                            must_cover=seq_acts) if ctx.thorough else None
+        f_h3 = pool.submit(hl.mc_export, ctx, "HistOps", "HistOps_seq_export.cfg", must_cover=seq_acts, min_records=3000)
+        f_g3 = pool.submit(hl.mc_export, ctx, "Graph", "Graph_seq_export.cfg", must_cover=("GetScale", "Scale"),
+                           min_records=1000)
+        f_g1 = pool.submit(hl.mc_export, ctx, "Graph", "Graph_export.cfg", must_cover=("GetScale", "Scale"),
+                           min_records=3000)
         # (random graph histories only in the thorough tier: Graph_seq_export has every history of length 4)
         f_g2 = pool.submit(hl.export_generate, ctx, "Graph", "Graph_hist_export.cfg", num=4000, depth=6,
                            min_records=400) if ctx.thorough else None
@@ -129,9 +136,9 @@ def run(ctx):
                 h12.replay_graph(ctx, rec, k, report)
                 ctx.case([what, rec], nontrivial=True)
             ctx.sample({"spec_" + what: grecs[len(grecs) // 3]}, limit=8)
-        f_mc1.result()
-        f_mc2.result()
-        f_mc3.result()
+        for fut in (f_mc1, f_mc2, f_mc3):
+            if fut is not None:
+                fut.result()
         f_trace.result()
     finally:
         pool.shutdown(wait=True)
